@@ -67,6 +67,10 @@ def oracle(script: dict, run: Any) -> List[Violation]:
     oks = {(e[4]["marker"], e[4]["n"]) for e in h.kind("kick_ok")}
     removed = {op["id"] for op in script.get("ops", []) if op["op"] == "remove"}
     cancelled = {c for src in script["sources"] for c in src.get("cancel", [])}
+    evals_by_marker: Dict[Any, List[Any]] = {}
+    for now_us, task, res in run.delay_log:
+        mk = task.args[0] if task.args else None
+        evals_by_marker.setdefault(mk, []).append((now_us, res))
     # ---------------------------------------------------------------- (b) cron schedules
     for pi, p in enumerate(ps):
         if p["wall"] is None or p["wall"] >= end - 2_500_000:
@@ -81,13 +85,17 @@ def oracle(script: dict, run: Any) -> List[Violation]:
                 if sp.get("foreign"):
                     continue
                 off = sp.get("offset")
-                t_eval = p["t_eval"] if p["t_eval"] is not None else lo
+                # the exact instant at which the loop evaluated this schedule in this poll (recorded at the get_task_delay seam)
+                evals = [x for x in evals_by_marker.get(sid, []) if lo <= x[0] < hi]
+                if len(evals) != 1:
+                    out.append(Violation("C15/not-evaluated-once-per-poll", f"cron schedule {sid} was evaluated {len(evals)} times in the poll starting at {from_us(lo).isoformat()}", sid=sid))
+                    continue
+                t_eval = evals[0][0]
                 now = from_us(t_eval)
                 if off is not None and "zone" in off and not zones_agree(off["zone"], now):
                     continue
-                # evaluation happens between the list result and +TOL; skip if that window straddles a minute
                 if (t_eval % MIN) > MIN - tol:
-                    continue
+                    continue   # the poll straddles a UTC minute boundary: outside the oracle (see assumptions)
                 want = cron_matches(sp["cron"], shifted(now, off))
                 got = [e for e in kicks.get(sid, []) if lo <= e[2] < hi]
                 n_want = 1 if want and sid not in cancelled else 0
@@ -112,7 +120,9 @@ def oracle(script: dict, run: Any) -> List[Violation]:
                 continue
             if sid not in p["listed"].get(src, []):
                 continue
-            tau = p["t_eval"] if p["t_eval"] is not None else p["wall"]
+            nxt = [q["wall"] for q in ps if q["wall"] is not None and q["wall"] > p["wall"]]
+            ex = [x for x in evals_by_marker.get(sid, []) if p["wall"] <= x[0] < (nxt[0] if nxt else end + MIN)]
+            tau = ex[0][0] if ex else (p["t_eval"] if p["t_eval"] is not None else p["wall"])   # exact evaluation instant when recorded
             kind, val = c14_expect(tau, T)
             if kind == "zero":
                 E = (tau, tau + SLACK_US + tol, "immediate")
